@@ -201,8 +201,12 @@ type c13Seen struct {
 	Key string
 }
 
+// c13LastLib is the transport handed to Dial as the 101 response body by the last doC13 call.
+var c13LastLib *memconn.End
+
 func doC13(c c13Case) (conn *websocket.Conn, err error, seen c13Seen, respProto string) {
 	lib, peer := memconn.Pipe()
+	c13LastLib = lib
 	// the body ends at once: on a rejected response Dial reads up to 1 KiB of it
 	// (for the error message) and would otherwise wait 3 real seconds
 	peer.CloseWrite(nil)
@@ -410,6 +414,12 @@ func TestC13(t *testing.T) {
 			case verdict == "bad" && err == nil:
 				msg = "an invalid response was accepted"
 			}
+			if msg == "" && err != nil {
+				// "an error and no connection": the transport of the rejected response must not stay open
+				if closed, _ := c13LastLib.Closed(); !closed {
+					msg = fmt.Sprintf("Dial rejected the response (%v) but left its body - the hijacked connection - open", err)
+				}
+			}
 		} else {
 			msg = "request: " + msg
 		}
@@ -446,7 +456,7 @@ func TestC13Keys(t *testing.T) {
 		}
 		return
 	}
-	keys := collectKeys(200)
+	keys := collectKeys(1500)
 	seen := map[string]bool{}
 	for _, k := range keys {
 		if ref.KeyShape(k) != "valid" {
@@ -457,8 +467,8 @@ func TestC13Keys(t *testing.T) {
 		}
 		seen[k] = true
 	}
-	rec.Case(true, "keys|200", "key-freshness")
-	rec.Evals(199)
+	rec.Case(true, "keys|1500", "key-freshness")
+	rec.Evals(1499)
 	if evid.Thorough() || os.Getenv("VERIF_C13_SECOND_PROCESS") == "1" {
 		cmd := exec.Command(os.Args[0], "-test.run", "^TestC13Keys$", "-test.timeout", "60s")
 		cmd.Env = append(os.Environ(), "VERIF_C13_PRINT_KEYS=1", "VERIF_OUT=", "VERIF_C13_SECOND_PROCESS=0", "VERIF_TIER=quick")
